@@ -1679,6 +1679,7 @@ int QSexact_solver (mpq_QSdata * p_mpq,
 		switch (*status)
 		{
 		case QS_LP_OPTIMAL:
+			mpf_QSfree_basis (basis);	/* a basis kept from an earlier level */
 			basis = mpf_QSget_basis (p_mpf);
 			x_mpf = mpf_EGlpNumAllocArray (p_mpf->qslp->ncols);
 			y_mpf = mpf_EGlpNumAllocArray (p_mpf->qslp->nrows);
@@ -1734,6 +1735,7 @@ int QSexact_solver (mpq_QSdata * p_mpq,
 			else
 			{
 				MESSAGE (msg_lvl, "Retesting solution in exact arithmetic");
+				mpf_QSfree_basis (basis);	/* a basis kept from an earlier level */
 				basis = mpf_QSget_basis (p_mpf);
 				EGcallD(QSexact_basis_status (p_mpq, status, basis, msg_lvl, &simplexalgo));
 #if 0
